@@ -29,6 +29,7 @@ type CheckSpec struct {
 	ExtraPrefixes []string `json:"extra_prefixes"`
 	TimeoutMs     int      `json:"timeout_ms"`
 	Workers       int      `json:"workers"`
+	DeadlineS     int      `json:"deadline_s"`
 }
 
 type KnownFinding struct {
@@ -150,6 +151,9 @@ func cmdCheck(args []string) int {
 		cfg.TimeoutMs = spec.TimeoutMs
 	}
 	cfg.Bounds["seed"] = seed
+	if spec.DeadlineS > 0 {
+		cfg.Deadline = time.Now().Add(time.Duration(spec.DeadlineS) * time.Second)
+	}
 	bs := spec.Quick
 	if *tier == "thorough" {
 		bs = map[string]int{}
